@@ -8,6 +8,7 @@ import (
 	"encoding/json"
 	"errors"
 	"fmt"
+	"io"
 	"net"
 	"sync/atomic"
 	"time"
@@ -123,4 +124,55 @@ func (m *Matcher) EvalOn(cx *layer4.Connection) (Verdict, error) {
 func (m *Matcher) Eval(prefix []byte, o Opts) (Verdict, error) {
 	cx, _ := NewConn(prefix, o)
 	return m.EvalOn(cx)
+}
+
+// floodConn is a connection whose peer never stops sending: every Read fills the buffer (up to a generous total, then
+// an error). A matcher evaluated in matching mode never gets to read from it; it is there to show what happens when one does.
+type floodConn struct {
+	local, remote net.Addr
+	left          int64
+}
+
+func (f *floodConn) Read(p []byte) (int, error) {
+	if f.left <= 0 {
+		return 0, io.ErrUnexpectedEOF
+	}
+	for i := range p {
+		p[i] = byte(int64(i) + f.left)
+	}
+	f.left -= int64(len(p))
+	return len(p), nil
+}
+func (f *floodConn) Write(p []byte) (int, error)      { return len(p), nil }
+func (f *floodConn) Close() error                     { return nil }
+func (f *floodConn) LocalAddr() net.Addr              { return f.local }
+func (f *floodConn) RemoteAddr() net.Addr             { return f.remote }
+func (f *floodConn) SetDeadline(time.Time) error      { return nil }
+func (f *floodConn) SetReadDeadline(time.Time) error  { return nil }
+func (f *floodConn) SetWriteDeadline(time.Time) error { return nil }
+
+// NewFloodConn is NewConn over a peer that has (practically) unlimited data waiting behind the prefetched prefix.
+func NewFloodConn(prefix []byte, o Opts) *layer4.Connection {
+	n := seq.Add(1)
+	var local, remote net.Addr
+	if o.UDP {
+		local, remote = vnet.UDPAddr("192.0.2.1", 53), vnet.UDPAddr("198.51.100.7", 40000+int(n%20000))
+	} else {
+		local, remote = vnet.TCPAddr("192.0.2.1", 443), vnet.TCPAddr("198.51.100.7", 40000+int(n%20000))
+	}
+	buf := make([]byte, len(prefix), len(prefix)+16)
+	copy(buf, prefix)
+	return layer4.WrapConnection(&floodConn{local: local, remote: remote, left: 24 << 20}, buf, hmods.NopLogger)
+}
+
+// EvalBehind evaluates the matcher as the last member of a matcher set whose earlier members are given (they are
+// evaluated first, in this order), on an existing connection.
+func (m *Matcher) EvalBehind(cx *layer4.Connection, first ...*Matcher) (Verdict, error) {
+	set := layer4.MatcherSet{}
+	for _, f := range first {
+		set = append(set, f.M)
+	}
+	set = append(set, m.M)
+	matched, err := set.Match(cx)
+	return Classify(matched, err), err
 }
